@@ -158,6 +158,8 @@ func Verif_C07_after_handshake() {
 	n.s.knownConnectionCosts["C"] = map[string]float64{"A": 1}
 	n.s.knownNodeInfo["C"] = &nodeInfo{Epoch: 1, Sequence: 1}
 	n.s.serviceAdsReceived["C"] = map[string]*ServiceAdvertisement{"s": {NodeID: "C", Service: "s", Time: time.Unix(100, 0)}}
+	// a service of C that was withdrawn (an advertisement older than the withdrawal may still arrive)
+	n.s.serviceAdsWithdrawn = map[string]map[string]time.Time{"C": {"w": time.Unix(200, 0)}}
 	d := verifAnyDatagram()
 	script := [][]byte{verifHandshake("B", 1), d}
 	if verifapi.Tier() == 1 {
